@@ -9,7 +9,8 @@ bystander entity (id 9) no top-level operation touches:
     2  world.delete_entity(9, immediate=True)
     3  world.remove_component(9, Hd)
 
-Top-level operations act on entity 1 only.  The statement fixes no order between the callbacks of one operation,
+Top-level operations act on entity 1 only (plus disabling / enabling dispatching, so that the armed callback
+itself may be postponed and fire - and disable again - in the middle of a release).  The statement fixes no order between the callbacks of one operation,
 so the oracle is: every callback observes `dispatch_enabled` True when it starts (nothing runs while disabled);
 whenever dispatching is enabled and the operation has returned, the multiset of callbacks delivered so far
 equals the multiset the model expects (each exactly once, real owner and world); while disabled the delivered
@@ -199,7 +200,7 @@ def h_reenter(sp, L=2, actions=4, bystander=True, build=True):
 
     oracle('after build')
     for step in range(L):
-        op = sp.choose(7, 'op%d' % step)
+        op = sp.choose(8, 'op%d' % step)
         when = 'step %d' % step
         fired_before = ARMED['fired']
         try:
@@ -266,6 +267,12 @@ def h_reenter(sp, L=2, actions=4, bystander=True, build=True):
                 sp.note('dispatch_enabled = True')
                 w.dispatch_enabled = True
                 enabled = True
+            elif op == 7:
+                if not enabled:
+                    sp.assume(False)
+                sp.note('dispatch_enabled = False')
+                w.dispatch_enabled = False
+                enabled = False
         except Exception as ex:     # noqa
             import traceback
             sp.fail('op-raises', '%s: operation raised %r at %s' % (
